@@ -238,15 +238,7 @@ func (w *World) buildUpdParams(m M) (sdk.Msg, error) {
 			FeeRegister: mU64(p, "feeReg"), FeeRecord: mU64(p, "feeRec"), FeePurchaseStorage: mU64(p, "feePur"),
 			Denom: mStr(p, "denom"), DefaultStorageLimit: mU64(p, "def"), MaxStorageLimit: mU64(p, "max")}}, nil
 	case "str":
-		var vf sdk.Dec
-		s := mStr(p, "valFee")
-		if s != "nil" {
-			d, err := sdk.NewDecFromStr(s)
-			if err != nil {
-				return nil, err
-			}
-			vf = d
-		}
+		vf := decOf(mI64(p, "feeNum"), mI64(p, "feeDen"))
 		return &streamtypes.MsgUpdateParams{Authority: auth, Params: streamtypes.Params{ValidatorFee: vf}}, nil
 	}
 	return nil, fmt.Errorf("harness: unknown params module %q", mStr(m, "mod"))
